@@ -336,8 +336,10 @@ func c07Gen(g *Gen) {
 	c07GenStreams(g, small, two)
 	c07GenSentLines(g, small, two)
 	c07GenLabelLengths(g)
+	c07GenLengthClasses(g, mid, two)
 	c07GenSample(g)
 	c07GenSampleLabelLengths(g)
+	c07GenSampleLengthClasses(g)
 	c07GenAgent(g)
 }
 
@@ -877,6 +879,12 @@ func c07GenAgent(g *Gen) {
 			return blob
 		}()},
 	)
+	{
+		classes, blobs := c07AgentLengthBlobs()
+		for i := range classes {
+			scens = append(scens, scen{classes[i], blobs[i]})
+		}
+	}
 	if g.Thorough() {
 		scens = append(scens,
 			scen{"agent-many-short-lines", bytes.Repeat([]byte("x\n"), 20000)},
